@@ -75,6 +75,17 @@ def run(prop, path):
     print('NOT-REPRODUCED %s (%s, seed %d, tier %s: %s cases, other failures: %s)' % (
         key, script, seed, tier, res.get('evaluated'), sorted({'%s:%s' % (f.get('kind'), f.get('sig')) for f in res.get('failures') or []})[:6]))
     return 0
+  if key.startswith('witness:seed-demo:'):
+    from vlib import prop as P
+    rc, out, err = P.run_child(os.path.join(ROOT, 'bounded', 'seed_demos.py'), [prop], timeout=1500)
+    res = json.loads(out.strip().splitlines()[-1])
+    hit = [w for w in res['failing'] if w['id'] == key[len('witness:seed-demo:'):]]
+    if hit:
+      print('  %s' % hit[0]['what'][:900])
+      print('REPRODUCED %s' % key)
+      return 1
+    print('NOT-REPRODUCED %s' % key)
+    return 0
   if key.startswith('witness:'):
     from vlib import prop as P
     rc, out, err = P.run_child(os.path.join(ROOT, 'bounded', 'witnesses.py'), [prop], timeout=600)
